@@ -91,6 +91,12 @@ CHECKS.update({
          "machine-checked proof in Coq (strong induction on the recursion budget, loop-stepping lemmas, regex lemmas) + print/parse differential testing + RFC 4515 reference parser"),
 })
 
+CHECKS.update({
+ "C14": ("proof", "Coq theorem over the Gallina mirror of LDAPFilter.from_string: an inductive definition of the RFC 4515 section 3 grammar (filter / and / or / not / filterlist / simple / present / substring / extensible items; values as *(normal / backslash hex hex) with hex digits in either case, raw UTF-8 and control octets, empty values; attribute descriptions and matching rules as accepted by the _ATTRIBUTE_PATTERN regenerated from the source; the spaces the parser tolerates after '(', after the operator and after each filter of a list) relates sentences to the trees they denote, and EVERY sentence, at any nesting depth within the recursion budget and inside any surrounding text, is parsed to exactly its tree, consuming exactly the sentence; the encoder then produces the RFC 4511 encoding of that tree (C03). The text __str__ writes is proved to be one sentence, so C13 is an instance. Sentences generated from the grammar are also run through the implementation, the extracted model and an independent reference parser on every run.",
+         "Attribute descriptions are 'what the library's pattern accepts' (the differences from RFC 4512 are the two C15 known findings); outer whitespace removal (str.strip) and the str->octets encoding are not part of this theorem (they are in C13's from_string statement for ASCII text).",
+         "machine-checked proof in Coq (inductive grammar, strong induction on the recursion budget, loop-stepping and space-skipping lemmas) + grammar-sentence differential testing + RFC 4515 reference parser"),
+})
+
 def main():
     m = {
         "version": 1,
